@@ -257,6 +257,23 @@ InitI(P, edb) == [r \in RelNames(P) |->
                     THEN (IF RelInfo(P, r).eqrel THEN EqClose(edb[r]) ELSE edb[r])
                     ELSE {}]
 
+\* ---- the model as a pure operator (additive; used by Api.tla) --------------
+\* StratumFix folds TP of stratum S to its fixpoint starting from interpretation J.I (inflationary: what is in J.I
+\* stays); EvalStrata does so stratum by stratum; both carry the out-of-domain flag along.
+\* ModelFrom(Pg, I0) is the evaluation of all strata started from an arbitrary interpretation I0 (for I0 =
+\* InitI(Pg, edb) it is the final I of the state machine below); ModelOf(Pg, edb) is the stratified model of Pg on edb.
+RECURSIVE StratumFix(_, _, _)
+StratumFix(Pg, S, J) ==
+    LET r == TP(Pg, S, J.I) IN
+    IF r.I = J.I THEN [I |-> J.I, o |-> J.o \/ r.o]
+    ELSE StratumFix(Pg, S, [I |-> r.I, o |-> J.o \/ r.o])
+RECURSIVE EvalStrata(_, _, _)
+EvalStrata(Pg, J, sx) ==
+    IF sx > Len(Pg.strata) THEN J
+    ELSE EvalStrata(Pg, StratumFix(Pg, SeqToSet(Pg.strata[sx]), J), sx + 1)
+ModelFrom(Pg, I0) == EvalStrata(Pg, [I |-> I0, o |-> FALSE], 1)
+ModelOf(Pg, e) == ModelFrom(Pg, InitI(Pg, e))
+
 \* ---- the evaluation as a state machine -----------------------------------
 VARIABLES pi,      \* index of the program
           edb,     \* the input database
